@@ -194,6 +194,9 @@ def _mk(flumine_mod):
     return fw, client, strategy, OrderValidation(fw)
 
 
+_SECOND = {"n": 0, "bad": []}
+
+
 def _refused(control, order):
     from flumine.exceptions import ControlError
     from flumine.order.orderpackage import OrderPackageType
@@ -202,6 +205,13 @@ def _refused(control, order):
         control(order, OrderPackageType.PLACE)
         return False
     except ControlError:
+        # the same order object offered again unchanged (a retry) is judged the same way
+        _SECOND["n"] += 1
+        try:
+            control(order, OrderPackageType.PLACE)
+            _SECOND["bad"].append((getattr(order.order_type, "price", None), getattr(order.order_type, "size", None), getattr(order.order_type, "liability", None), order.side))
+        except ControlError:
+            pass
         return True
 
 
@@ -374,4 +384,24 @@ def _validation(case, out):
             if refused == ok:
                 out.v("betdaq-size-validation-differs", {}, size=size, refused=refused)
         out.d("validation:betdaq")
+    # an order whose validation cannot even be evaluated (LINE_RANGE ladder named without its range) never counts as valid
+    from flumine.exceptions import ControlError
+    from flumine.order.orderpackage import OrderPackageType
+
+    for p_ in (2.5, 3.14, 0.0, 1000.5):
+        o = order_of("BACK", LimitOrder(p_, 5.0, price_ladder_definition="LINE_RANGE"))
+        out.rule("validation")
+        try:
+            control(o, OrderPackageType.PLACE)
+            outcome = "passed"
+        except ControlError:
+            outcome = "refused"
+        except Exception:  # noqa: BLE001
+            outcome = "raised"
+        if outcome == "passed":
+            out.v("unverifiable-order-passed-validation", {"ladder": "LINE_RANGE"}, price=p_)
+    out.c("rule_second-offer", _SECOND["n"])
+    for bad in _SECOND["bad"][:50]:
+        out.v("refused-order-passes-when-offered-again", {}, order=bad)
+    _SECOND["n"], _SECOND["bad"] = 0, []
     out.c("distinct_inputs", n)
